@@ -109,8 +109,22 @@ def check_trivia(prog):
         fields = set()
         fc = 0
         used_locals = set()
-        for p2, h2 in prog.hir.items():
-            if p2 == path or p2.startswith(path + "::"):
+        # ... and in the formatter's own free helper functions they call (`print_own_line_item(child, out)`), to depth 2
+        scope = [p2 for p2 in prog.hir if p2 == path or p2.startswith(path + "::")]
+        frontier = list(scope)
+        for _ in range(2):
+            nxt = []
+            for p2 in frontier:
+                for cnode in H.calls(prog.hir[p2]["body"]):
+                    q = H.def_path(cnode[1]) or ""
+                    if q.startswith("jrsonnet_formatter::") and q in prog.hir and q not in scope and not q.startswith(C) \
+                            and q != "jrsonnet_formatter::comments::format_comments" and prog.fn(q) is not None and not prog.fn(q).impl_trait:
+                        scope.append(q)
+                        nxt.append(q)
+            frontier = nxt
+        for p2 in scope:
+            h2 = prog.hir[p2]
+            if True:
                 for y in H.walk(h2["body"]):
                     if H.tag(y) == "field":
                         fields.add(y[2])
